@@ -9,6 +9,7 @@ package main
 import (
 	"bytes"
 	"fmt"
+	"math/rand/v2"
 	"os"
 	"time"
 
@@ -121,6 +122,92 @@ func (s *session) next(c *hx.Ctx, timeout time.Duration, tid uint16, wantTemplat
 	}
 }
 
+// burstCase: over plain UDP the application sends 34..44 (template, data) pairs back to back while the
+// consumer of the collector stands still, so that a backlog of one exporter's datagrams builds up inside
+// the collector. What is delivered afterwards must be those messages in the order sent, each exact (a
+// datagram the kernel dropped may be missing; a second burst must then come through completely).
+func burstCase(c *hx.Ctx, k int, s *session, r *rand.Rand) {
+	el := []regtable.Elem{lib.CustomElems[11]} // vfUnsigned32
+	for attempt := 0; attempt < 2; attempt++ {
+		n := 34 + r.IntN(11)
+		type pair struct {
+			tid uint16
+			val uint32
+		}
+		var sent []pair
+		s.coll.HoldConsumer()
+		for i := 0; i < n; i++ {
+			tid := s.ep.NewTemplateID()
+			delete(s.retired, tid) // (template ids restart at 256 after an exporter turnover)
+			val := uint32(0xB0000000) | uint32(k&0xfff)<<12 | uint32(attempt)<<8 | uint32(i)
+			tset, err := lib.TemplateSet(tid, el, 0)
+			if err == nil {
+				_, err = s.ep.SendSet(tset)
+			}
+			if err == nil {
+				dset := entities.NewSet(false)
+				if err = lib.FillDataSet(dset, tid, el, [][][]byte{{refipfix.PU(4, uint64(val))}}, nil); err == nil {
+					_, err = s.ep.SendSet(dset)
+				}
+			}
+			if err != nil {
+				s.coll.ReleaseConsumer()
+				c.Violation(k, "burst-send-error:"+s.cfg.name, err.Error(), nil)
+				return
+			}
+			sent = append(sent, pair{tid, val})
+		}
+		s.coll.ReleaseConsumer()
+		// expected sequence: T0 D0 T1 D1 ...; collect until complete or quiet for 1.5 s
+		pos := 0 // next expected index in the sequence (2i = template i, 2i+1 = data i)
+		delivered := 0
+		for pos < 2*n {
+			dp, ok := s.coll.Pop(s.domain, 1500*time.Millisecond)
+			if !ok {
+				break
+			}
+			o := dp.Out
+			if o.ExtractErr == nil && s.retired[o.SetID] {
+				continue // a late datagram of an earlier case
+			}
+			// find it at or after pos
+			found := -1
+			for j := pos; j < 2*n; j++ {
+				p := sent[j/2]
+				if o.ExtractErr == nil && o.SetID == p.tid && o.IsTemplate == (j%2 == 0) {
+					found = j
+					break
+				}
+			}
+			if found < 0 {
+				for _, p := range sent {
+					s.retired[p.tid] = true
+				}
+				c.Violation(k, "burst-order:"+s.cfg.name, fmt.Sprintf("after a burst of %d (template, data) pairs against a consumer standing still, delivery %d (template=%v, set id %d) comes after a message that was sent later, or was never sent", n, delivered, o.IsTemplate, o.SetID), nil)
+				return
+			}
+			if found%2 == 1 {
+				if len(o.Records) != 1 || len(o.Records[0]) != 1 || !bytes.Equal(o.Records[0][0], refipfix.PU(4, uint64(sent[found/2].val))) {
+					c.Violation(k, "burst-value:"+s.cfg.name, fmt.Sprintf("data message %d of the burst delivered as %x", found/2, o.Records), nil)
+					return
+				}
+			}
+			pos = found + 1
+			delivered++
+		}
+		for _, p := range sent {
+			s.retired[p.tid] = true
+		}
+		c.Add("burst_messages_delivered", int64(delivered))
+		if delivered == 2*n {
+			c.Add("bursts_delivered_completely", 1)
+			return
+		}
+		c.Add("burst_messages_missing", int64(2*n-delivered))
+	}
+	c.Violation(k, "burst-loss:"+s.cfg.name, "two bursts in a row of at most 44 small (template, data) pairs lost messages although each is far below the size for which delivery over UDP is required", nil)
+}
+
 func main() {
 	c := hx.New("C01")
 	defer c.Finish()
@@ -223,6 +310,9 @@ func main() {
 		if m := s.coll.Mutations(); len(m) > 0 {
 			c.Violation(k, "delivered-message-changed-later:"+cfg.name, m[0], desc)
 			ok = false
+		}
+		if ok && cfg.proto == "udp" && !cfg.enc && k%24 == 7 {
+			c.Guard(k, "burst:"+cfg.name, desc, func() { burstCase(c, k, s, r) })
 		}
 		if ok && k%16 == 15 && !(cfg.proto == "udp" && cfg.enc) {
 			// exporter turnover: a new exporting process of the same observation domain connects to the
